@@ -48,7 +48,7 @@ class AstGen:
         if c < 0.25:
             return F.int_to_bytes(r.choice([0, 1, -1, 127, 128, -128, -129, 255, 256, 65535, 2**31, -2**40, r.randint(-70000, 70000)]))
         if c < 0.4:
-            return r.choice([b'abc', b'hello world', b'a b', b'x', b'q"z', b'\xc3\xa9'])
+            return r.choice([b'abc', b'hello world', b'a b', b'x', b'q"z', b'\xc3\xa9', 'héllo'.encode(), 'ключ'.encode(), '日本'.encode(), 'naïve ü'.encode()])
         n = r.randint(lo, hi)
         return bytes(r.getrandbits(8) for _ in range(n))
 
@@ -198,6 +198,16 @@ class Speller:
             return 'x%02x' % b
         return 'd%d' % (s8(b) if signed else b)
 
+    def sval(self, v):
+        """v written as a string value s"..." / s'...' (None when v is not such text): letters of any script, digits, _ - . and single inner blanks"""
+        try:
+            t = v.decode('utf-8')
+        except Exception:
+            return None
+        if not t or not all(ch.isalnum() or ch in ' _-.' for ch in t) or t.startswith(' ') or t.endswith(' ') or '  ' in t:
+            return None
+        return self.r.choice(['s"%s"', "s'%s'"]) % t
+
     def pushval(self, v):
         """a value symbol for the PUSH pseudo-op that denotes exactly v (or None)"""
         r = self.r
@@ -208,10 +218,9 @@ class Speller:
         except Exception:
             pass
         try:
-            s = v.decode('utf-8')
-            if s and s.isascii() and all(ch.isalnum() or ch in ' _-.' for ch in s) and not s.startswith(' ') and not s.endswith(' ') and '  ' not in s:
-                opts.append('s"%s"' % s)
-                opts.append("s'%s'" % s)
+            sv = self.sval(v)
+            if sv:
+                opts.append(sv); opts.append(sv)
         except Exception:
             pass
         return r.choice(opts)
@@ -236,6 +245,9 @@ class Speller:
             v = i[1]
             if 2 <= len(v) <= 255 and r.random() < 0.6:
                 return self.name_push() + ' ' + self.pushval(v) + c
+            sv = self.sval(v)
+            if sv and r.random() < 0.5:         # explicit OP_PUSH1 with a string value, with or without the size operand
+                return self.name('PUSH1') + (' d%d ' % len(v) if r.random() < 0.5 else ' ') + sv + c
             return self.name('PUSH1') + ' d%d x%s' % (len(v), v.hex()) + c
         if k == 'push2':
             v = i[1]
@@ -248,6 +260,9 @@ class Speller:
                 return '@' + v.decode() + c
             if i[1] == 'READ_CACHE_SIZE' and v and v.isalnum() and r.random() < 0.4:
                 return '@#' + v.decode() + c
+            sv = self.sval(v)
+            if sv and r.random() < 0.4:
+                return self.name(i[1]) + ' ' + sv + c
             return self.name(i[1]) + ' x' + v.hex() + c
         if k == 'var1int':
             v = i[2]
